@@ -112,6 +112,14 @@ def run(pid, tier):
         chk.add("transitions", st)
         for e in events[2:5]:
             chk.sample(tc._short(e, 400))
+        if pid == "C09":
+            # transaction receipts roots (committed by the VM, below and AT the 65 535-receipt limit) against the same RFC oracle
+            trv = os.path.join(vlib.WORK, "C09_receipts.ndjson")
+            vlib.vh(["record", "vm", "--tier", tier, "--part", "client,prog", "-o", trv], bin="vh_vm", timeout=3000)
+            nev2, nseg2, st2 = tc.validate(chk, "vm", "vm/FuelVM_Trace.tla", trv, tag="C09r", timeout=3000, parallel=4)
+            chk.add("states", st2)
+            chk.add("transitions", st2)
+            chk.set("receipts_root_events", len([e for e in vlib.read_ndjson(trv) if e.get("ev") in ("Final", "RunSummary")]))
         # ---- binding self-test ----
         tc.selftest_corrupt(chk, "bmt", SPEC_TR, tr, tc.flip_bool_field("Verify", "verdict") if pid == "C10" else tc.corrupt_hex_field(["root"]))
         chk.set("evaluations", nev + chk.cov.get("replay_steps", 0))
